@@ -96,13 +96,24 @@ def confirm(v):
     # native answer: "<text>\x1f<parsed int:scale | ERR>"
     if out.startswith('PANIC'):
         return True, out
+    if v.get('kind') == 'panic':
+        # an arithmetic-overflow event wraps silently in the release profile: the dev profile (overflow checks on) is the
+        # build in which it is a panic, i.e. no text at all
+        dbg = H.replay_lines(['fmt_roundtrip\t%s\t%s' % (t['fn'], H.dec_str(x, sc))], 'debug')[0]
+        if dbg.startswith('PANIC'):
+            return True, 'debug profile: %s ; release profile: %s' % (dbg[:80], out[:80])
     text, parsed = out.split('\x1f')
     if parsed == 'ERR':
         return True, out
     pi, ps = H.parse_dec(parsed)
-    M = max(ps, sc)
-    if pi * 10 ** (M - ps) != x * 10 ** (M - sc):
-        return True, out
+    if abs(ps - sc) > 100000:
+        # never materialise 10^(scale difference) for extreme scales: values this far apart are equal only when both are zero
+        if pi != 0 or x != 0:
+            return True, out
+    else:
+        M = max(ps, sc)
+        if pi * 10 ** (M - ps) != x * 10 ** (M - sc):
+            return True, out
     if 'identical' in v['detail']:
         return not (pi == x and ps == sc), out
     if 'length' in v['detail']:
@@ -150,6 +161,7 @@ def main(tier):
     cfg = C.config_consts(prog)
     D = 10 if tier == 'quick' else 20
     tasks = []
+    EXTREME_L = (0, 1, 2, 6, D)
     for fn in FNS:
         for L in range(0, D + 1):
             if fn == 'to_plain_string':
@@ -158,12 +170,17 @@ def main(tier):
                 # the whole i64 range of scales, split in three bands only to shard the work
                 for (lo, hi) in ((-SCALE_LIMIT, -41), (-40, 60), (61, SCALE_LIMIT)):
                     tasks.append({'fn': fn, 'L': L, 'slo': lo, 'shi': hi, 'cfg': cfg})
+                # beyond the property's quantifier (|scale| <= 10^15): the remaining i64 scales for the renderings whose
+                # pinned code is right there too (exponent arithmetic in i128); engineering notation is NOT (DESIGN section 11)
+                if fn not in ('to_engineering_notation',) and L in EXTREME_L:
+                    tasks.append({'fn': fn, 'L': L, 'slo': -2 ** 63 + 1, 'shi': -SCALE_LIMIT - 1, 'cfg': cfg, 'extreme': True})
+                    tasks.append({'fn': fn, 'L': L, 'slo': SCALE_LIMIT + 1, 'shi': 2 ** 63 - 1, 'cfg': cfg, 'extreme': True})
     rep.required_labels = {'display:plain form', 'display:exponent form', 'lowerexp:exponent form', 'to:plain form'}
-    rep.bounds = {'digits_L': '0 (zero) and 1..%d, symbolic digits and sign' % D, 'scale': 'every scale in [-10^15, 10^15] (symbolic; the code thresholds fork it); to_plain_string: -40..60',
+    rep.bounds = {'digits_L': '0 (zero) and 1..%d, symbolic digits and sign' % D, 'scale': 'every scale in [-10^15, 10^15] (symbolic; the code thresholds fork it); to_plain_string: -40..60; additionally (beyond the property quantifier) every remaining i64 scale except i64::MIN for all renderings but engineering / plain at digit lengths %s' % (EXTREME_L,),
                   'renderings': FNS, 'config constants read from the dump': cfg}
     rep.assumptions = ['fmt::Formatter::pad_integral with default options emits sign + buffer (std); integer Display/{:+} rendering is std',
                        'i128::from_str / BigInt::from_str_radix acceptance rules (std / num-bigint 0.4) as summarised in DESIGN 2.4']
-    rep.outside = ['more than D digits', 'to_plain_string beyond |scale| 60 (materialises zeros)', '|scale| > 10^15 (observation: to_engineering_notation of d@(i64::MAX) prints d00e-9223372036854775809, which the parser rejects with an exponent overflow; outside the property scope)']
+    rep.outside = ['more than D digits', 'to_plain_string beyond |scale| 60 (materialises zeros)', '|scale| > 10^15 for to_engineering_notation (observation: d@(i64::MAX) prints d00e-9223372036854775809, which the parser rejects with an exponent overflow; outside the property scope) and scale == i64::MIN (observation: Display prints the zero 0@i64::MIN as 0, dropping the scale; the value is preserved)']
     sys.stderr.write('[C04] %d tasks\n' % len(tasks))
     rep.validated, rep.validation_mismatches = validate(prog, rng, 300 if tier == 'quick' else 3000, rep)
     results = H.run_parallel(tasks, worker, progress=100)
